@@ -49,11 +49,26 @@ struct TestAP : public AbstractParametrizable {
   std::shared_ptr<Parameter>& xGetParameterPtr(size_t i) { return AbstractParametrizable::getParameter(i); }
 };
 
+// A minimal ParameterListener (audit F1): on a value change of the parameter it is attached to,
+// it sets its target to the new value -- what AliasParameterListener::parameterValueChanged does
+// with (*pl_)[alias_], without the name check.  Parameter's copy constructor / operator= / clone()
+// copy the vector of shared_ptr<ParameterListener>, so a clone fires this very object.
+struct Mirror : public ParameterListener {
+  std::string id; std::shared_ptr<Parameter> target;
+  Mirror(const std::string& i, const std::shared_ptr<Parameter>& t) : id(i), target(t) {}
+  Mirror* clone() const override { return new Mirror(*this); }
+  const std::string& getId() const override { return id; }
+  void parameterNameChanged(ParameterEvent&) override {}
+  void parameterValueChanged(ParameterEvent& e) override { target->setValue(e.parameter()->getValue()); }
+  void parameterConstraintChanged(ParameterEvent&) override {}
+};
+
 struct World {
   std::vector<std::unique_ptr<ParameterList>> reg;
   std::vector<std::unique_ptr<TestAP>> ap;
   std::map<const Parameter*, size_t> num;
   std::vector<std::shared_ptr<Parameter>> keep;
+  size_t nlisten = 0;
   World() {
     for (size_t i = 0; i < NPLAIN; ++i) reg.emplace_back(new ParameterList());
     for (size_t i = 0; i < NAP; ++i) ap.emplace_back(new TestAP());
@@ -149,6 +164,13 @@ static std::string exec(World& w, const Toks& t, TestAP*& owner) {
   if (o == "share") { w.L(k).shareParameter(w.L(toU(t[2])).getParameter(name(t[3]))); return "ok"; }
   if (o == "shareall") { w.L(k).shareParameters(w.L(toU(t[2]))); return "ok"; }
   if (o == "include") { w.L(k).includeParameters(w.L(toU(t[2]))); return "ok"; }
+  if (o == "listen") {
+    // attach a mirror listener to L[k].name whose target is L[k].target (both in the same list)
+    std::shared_ptr<Parameter>& p = w.L(k).getParameter(name(t[2]));
+    std::shared_ptr<Parameter>& q = w.L(k).getParameter(name(t[3]));
+    p->addParameterListener(std::make_shared<Mirror>("mirror" + std::to_string(w.nlisten++), q));
+    return "ok";
+  }
   if (o == "at") {
     // operator[] (const / non-const) and getParameter(i) (const / non-const): no range check in the
     // library, so an out-of-range index is not executed
@@ -272,6 +294,14 @@ static std::string exec(World& w, const Toks& t, TestAP*& owner) {
     if (raised != 0 || p1 != p2 || i >= a.getNumberOfParameters()) return "overloads-disagree";
     if (a.xGetParameterPtr(i).get() != p1 || ca.xGetParameterPtrC(i).get() != p1) return "overloads-disagree";
     return "obj " + entry(w, a.xGetParameterPtr(i));
+  }
+  if (o == "ap.copy" || o == "ap.assign") {
+    // the owner's implicit copy constructor (what TestAP::clone uses) / copy assignment
+    size_t j = toU(t[2]);
+    TestAP& src = w.A(k); w.A(j);
+    if (o == "ap.copy") { std::unique_ptr<TestAP> c(src.clone()); w.ap[j - NPLAIN] = std::move(c); }
+    else w.A(j) = src;
+    return "ok";
   }
   if (o == "ap.nons") { return "str " + showName(w.A(k).getParameterNameWithoutNamespace(name(t[2]))); }
   return "bad-op";
